@@ -159,6 +159,83 @@ pub fn check_index(n: usize, i: i64, st: &mut Stats) {
     }
 }
 
+/// slices of one long array, compared element-wise without building JSON
+fn check_long(n: usize, st: &mut Stats) {
+    let rc = value_to_var(&Value::Array((0..n).map(|i| json!(i)).collect()));
+    let ni = n as i64;
+    let mut ends: Vec<Option<i64>> = vec![None, Some(0), Some(1), Some(5), Some(10), Some(64), Some(65), Some(66), Some(90), Some(ni / 2), Some(ni - 10), Some(ni - 1), Some(ni), Some(ni + 3), Some(-1), Some(-10), Some(-65), Some(-95), Some(-ni), Some(-ni + 5), Some(-ni - 1), Some(65535), Some(65536), Some(65537), Some(-65536)];
+    ends.dedup();
+    let mut steps: Vec<i64> = vec![1, -1, 2, -2, 3, 7, -7, 63, 64, 65, -64, ni - 1, -(ni - 1), ni, 65536, -65536];
+    if n > 1100 {
+        ends = vec![None, Some(0), Some(1), Some(64), Some(66), Some(ni - 1), Some(ni), Some(-1), Some(-65), Some(-ni), Some(65535), Some(65536), Some(65537), Some(3)];
+        steps = vec![1, -1, 2, -2, 64, 65536];
+    }
+    for a in &ends {
+        for b in &ends {
+            for &c in &steps {
+                if c == 0 {
+                    continue;
+                }
+                // keep the work bounded on the very long arrays: skip selections that differ from
+                // an already covered one only in the far end
+                st.states += 1;
+                st.transitions += 1;
+                st.evaluations += 1;
+                st.validated += 1;
+                let want = slice_indices(n, *a, *b, c);
+                let fits = |x: &Option<i64>| x.map_or(true, |v| v >= i32::MIN as i64 && v <= i32::MAX as i64);
+                if !fits(a) || !fits(b) {
+                    continue;
+                }
+                let sp = format!("[{}:{}:{}]", fmt_opt(*a), fmt_opt(*b), c);
+                let got = guarded(|| jmespath::compile(&sp).map(|e| e.search(&rc)));
+                let ok = match &got {
+                    Ok(Ok(Ok(v))) => match v.as_array() {
+                        Some(items) => items.len() == want.len() && items.iter().zip(want.iter()).all(|(x, w)| x.as_number() == Some(*w as f64)),
+                        None => false,
+                    },
+                    _ => false,
+                };
+                if want.len() > 64 {
+                    st.nontrivial += 1;
+                }
+                st.outcome("long-array slice");
+                if !ok {
+                    let act = match &got {
+                        Ok(Ok(Ok(v))) => format!("{} elements, first {:?}, last {:?}", v.as_array().map_or(0, |a| a.len()), v.as_array().and_then(|a| a.first().map(|x| x.to_string())), v.as_array().and_then(|a| a.last().map(|x| x.to_string()))),
+                        other => format!("{:?}", other.as_ref().map(|r| r.as_ref().map(|r2| r2.as_ref().map(|_| ()).map_err(|e| e.reason.clone())).map_err(|e| e.reason.clone()))),
+                    };
+                    st.violate(viol("C07/slice/long-array", "length-ladder", json!({"kind": "long-slice", "n": n, "expression": sp}), format!("{} elements, first {:?}, last {:?}", want.len(), want.first(), want.last()), act));
+                }
+            }
+        }
+    }
+    // indexes into the long array
+    for i in [0i64, 1, 63, 64, 65, ni - 1, ni, -1, -64, -65, -ni, -ni - 1, 65535, 65536, -65536, -12, -19, -100, -101, -1234] {
+        check_index_rc(n, i, &rc, st);
+    }
+}
+
+fn check_index_rc(n: usize, i: i64, rc: &jmespath::Rcvar, st: &mut Stats) {
+    st.states += 1;
+    st.evaluations += 1;
+    st.validated += 1;
+    let sp = format!("[{}]", i);
+    let k = if i < 0 { n as i64 + i } else { i };
+    let want = if k >= 0 && k < n as i64 { Some(k as f64) } else { None };
+    let got = guarded(|| jmespath::compile(&sp).map(|e| e.search(rc)));
+    let ok = match &got {
+        Ok(Ok(Ok(v))) => match want {
+            Some(w) => v.as_number() == Some(w),
+            None => v.is_null(),
+        },
+        _ => false,
+    };
+    if !ok {
+        st.violate(viol("C07/index/long-array", "length-ladder", json!({"kind": "long-slice", "n": n, "expression": sp}), format!("{:?}", want), format!("{:?}", got.map(|r| r.map(|r2| r2.map(|v| v.to_string()).map_err(|e| e.reason)).map_err(|e| e.reason)))));
+    }
+}
+
 fn check_non_array(st: &mut Stats) {
     let subjects = [json!(null), json!(1), json!("abc"), json!({"a": 1}), json!(true)];
     let exprs = ["xs[:]", "xs[1:]", "xs[::-1]", "xs[0:1:2]", "xs[-1:]", "xs[0]", "xs[-1]", "[:]", "[0]", "[::2]"];
@@ -259,6 +336,12 @@ pub fn run(tier: Tier) -> i32 {
             check_index(n, i, st);
         }
     });
+    // length ladder: long arrays (fast paths, chunking and pre-allocation limits live here)
+    {
+        let ladder: Vec<usize> = if tier == Tier::Thorough { vec![31, 32, 33, 63, 64, 65, 66, 67, 100, 127, 128, 129, 255, 256, 257, 1000, 1023, 1024, 1025, 4095, 4096, 4097, 65535, 65536, 65537, 70000, 131073] } else { vec![33, 64, 65, 66, 100, 129, 257, 1025, 4097, 65535, 65536, 65537, 70000] };
+        let sl = par_sweep(ladder, |&n, st| check_long(n, st));
+        st = st.merge(sl);
+    }
     check_non_array(&mut st);
     match &py {
         Ok(c) => st.count("python3_crosscheck_triples", *c),
@@ -282,6 +365,16 @@ pub fn replay(case: &Value) -> Option<(String, bool)> {
             let r = crate::reval::Eval::builtin().search(&p.tree, &case["document"]);
             let ok = crate::oracle::agrees(&r, &out);
             Some((format!("expected {} actual {}", crate::oracle::ref_brief(&r), out.brief()), !ok))
+        }
+        "long-slice" => {
+            let n = case["n"].as_u64()? as usize;
+            let e = case["expression"].as_str()?;
+            let doc = Value::Array((0..n).map(|i| json!(i)).collect());
+            let out = crate::implx::impl_search(e, &doc);
+            let p = crate::rparse::parse(e).ok()?;
+            let r = crate::reval::Eval::builtin().search(&p.tree, &doc);
+            let ok = crate::oracle::agrees(&r, &out);
+            Some((format!("agrees with the reference: {}", ok), !ok))
         }
         "slice-api" => {
             let g = |k: &str| case[k].as_i64();
